@@ -27,15 +27,34 @@ def is_diverging(fn, bb):
 
 
 def slot_writes(fn):
-    """ptr::write calls whose pointer is UnsafeCell::get(&(*entry).slot): [(bb, term, entry_expr)]."""
+    """Writes of the item value into (*entry).slot, in either idiom:
+         (*entry).slot.get().write(MaybeUninit::new(v))      -- ptr::write
+         (*(*entry).slot.get()).write(v)                      -- MaybeUninit::write
+    -> [(bb, term, entry_expr)]"""
     out = []
-    for bi, t in fn.calls(lambda t: callee(t).endswith("::write") and "ptr" in callee(t)):
+    for bi, t in fn.calls(lambda t: callee(t).endswith("::write") or callee(t).endswith("::write_volatile") or callee(t).endswith("ptr::write")):
+        if not t["args"]:
+            continue
         e = fn.expr_of_operand(t["args"][0])
-        if e[0] == "call" and isinstance(e[1], str) and e[1].endswith("UnsafeCell::<T>::get"):
-            inner = peel(e[2][0])
-            if inner[0] == "field" and inner[2] == "slot":
-                out.append((bi, t, peel(inner[1])))
+        got = None
+        for x in walk(e):
+            if x[0] == "call" and isinstance(x[1], str) and x[1].endswith("UnsafeCell::<T>::get"):
+                inner = peel(x[2][0])
+                if inner[0] == "field" and inner[2] == "slot":
+                    got = peel(inner[1])
+        if got is not None:
+            out.append((bi, t, got))
     return out
+
+
+def slot_value_block(fn, bi, t):
+    """Block in which the user value is consumed on its way into the slot."""
+    if len(t["args"]) < 2:
+        return bi
+    val = fn.expr_of_operand(t["args"][1])
+    if val[0] == "call" and str(val[1]).endswith("MaybeUninit::<T>::new"):
+        return val[4][0]
+    return bi
 
 
 def active_stores(fn):
